@@ -804,12 +804,32 @@ func ruleR09f(c *Ctx, r *Report) {
 		r.Undec(key, c.Pos(fn.Pos()), "store to s.index or the call to checkUnmarshalLengths not found")
 		return
 	}
-	dataLen := canon(chk[0].Common().Args[2])
-	if len(chk[0].Common().Args) > 3 {
-		if k, isK := constInt(chk[0].Common().Args[3]); !isK || k != 0 {
-			r.Viol(key, c.Pos(chk[0].Pos()), "the record count is derived from a length other than the number of bytes read into the bucket (an extra amount is added before dividing by the width): the bucket claims a record beyond its data, which lookups then read from whatever follows")
-			return
+	// the 64-bit arguments, in whatever order the helper takes them: the decoded length, and amounts
+	// added to it before the division by the width, which must be zero here
+	var dataLen ssa.Value
+	extra := false
+	for _, a := range chk[0].Common().Args[1:] {
+		if b, ok := a.Type().Underlying().(*types.Basic); !ok || b.Kind() != types.Uint64 {
+			continue
 		}
+		if k, isK := constInt(a); isK {
+			if k != 0 {
+				extra = true
+			}
+			continue
+		}
+		if dataLen != nil {
+			extra = true
+		}
+		dataLen = canon(a)
+	}
+	if dataLen == nil {
+		r.Undec(key, c.Pos(chk[0].Pos()), "no decoded length handed to checkUnmarshalLengths")
+		return
+	}
+	if extra {
+		r.Viol(key, c.Pos(chk[0].Pos()), "the record count is derived from a length other than the number of bytes read into the bucket (an extra amount is added before dividing by the width): the bucket claims a record beyond its data, which lookups then read from whatever follows")
+		return
 	}
 	sameLen := func(v ssa.Value) bool {
 		return sameRoot(v, dataLen) || canon(v) == dataLen
